@@ -14,6 +14,24 @@ CLAIMED = {
         note="Trusted: Coq kernel, translator, correspondence harness; the shard writer's accept/reject decision is an input of the model (oracle); uuid4 freshness.",
         technique="Coq proof (invariant by induction over operations) + AST-generated kernels + differential correspondence",
         design="7/C10"),
+    "C11": dict(
+        text="Coq theorems over the same filler model (attach mode Copy/Alias generated from the source): for every eps>=1 and every op sequence, "
+             "including in-place mutation and reuse of the caller's metadata objects and rejected writes, every accepted write with a non-empty "
+             "metadata value lies in a recorded shard labelled with that value (c11_label_exact), and per split the recorded shards contain exactly "
+             "the accepted writes, once each, in caller order (c11_recorded_exactly_the_accepted_writes). Correspondence: same op sequences on the real "
+             "library incl. selection by metadata through as_numpy_iterator(shard_filter).",
+        note="Trusted: Coq kernel, translator, harness; metadata values abstracted to naturals (0 = empty dict); writer accept/reject is an oracle.",
+        technique="Coq proof (labelling invariant + refinement to the list of accepted writes) + AST-generated kernels + differential correspondence",
+        design="7/C11"),
+    "C16": dict(
+        text="Coq theorems about the readinto loop of hash_checksums with buffer size, sentinel, slice and one-object-per-listed-name shape regenerated "
+             "from utils.py: for every streaming hash family (section hypotheses: streaming law), every file, every algorithm tuple (order, repetition) and "
+             "every adequate short-read script the result is the tuple of standard digests of the whole file; the chunks fed concatenate to the file. "
+             "Tie: scripted short reads against the real function (toy hash), all 13 algorithms against one-shot digests and *sum tools at sizes around the "
+             "128 KiB multiples, and every checksum recorded in written datasets against one-shot digests of the files.",
+        note="Trusted: Coq kernel, translator, harness; hashlib/xxhash implement the named algorithms and the streaming law (oracle, checked differentially).",
+        technique="Coq proof (induction over read scripts, parametric in the hash) + AST-generated loop kernel + differential correspondence",
+        design="7/C16"),
 }
 REASON_TODO = "not yet built: the Coq model/theorems for this property are scheduled later in the build order of DESIGN.md section 10; nothing is claimed until its check exists"
 
